@@ -152,7 +152,7 @@ func (w *World) tagSide(a simrt.Action, it *Item, setHash []byte) {
 }
 
 var badBlockKinds = []string{"lastcommit-underweight", "lastcommit-foreign-votes", "apphash", "validatorshash", "lastblockid", "height",
-	"chainid", "numtxs", "datahash", "receiptshash", "lastcommithash", "proposer", "lastcommit-duplicate-slot", "lastcommit-wrong-height", "lastcommit-mixed-rounds"}
+	"chainid", "numtxs", "datahash", "receiptshash", "lastcommithash", "proposer", "lastcommit-duplicate-slot", "lastcommit-wrong-height", "lastcommit-mixed-rounds", "lastblockid-parts"}
 
 // tamperBlock makes one thing wrong in a block a Byzantine proposer is about to propose. Honest
 // validators must never commit such a block (C02); whether they do is for the commit oracle to see.
@@ -272,6 +272,12 @@ func (w *World) tamperBlock(blk *types.Block, v *valInfo, idx int, variant int) 
 			return false
 		}
 		blk.Header.LastBlockID.Hash = flip(blk.Header.LastBlockID.Hash)
+	case "lastblockid-parts":
+		// the right predecessor hash with another part-set header: not the id of the block that was committed
+		if h == 1 {
+			return false
+		}
+		blk.Header.LastBlockID.PartsHeader.Hash = flip(blk.Header.LastBlockID.PartsHeader.Hash)
 	case "height":
 		blk.Header.Height = h + 1
 	case "chainid":
